@@ -306,9 +306,14 @@ impl ISocket for ReqSocket {
     let mut should_notify = false;
     {
       let mut state_guard = self.state.lock();
-      // Only the exchange this receive belongs to may be finished by it: a receive of an earlier
-      // exchange that is woken late must not reset a newer request's state.
-      if matches!(*state_guard, ReqState::ExpectingReply { exchange, .. } if exchange == my_exchange) {
+      // A receive that fails may only finish the exchange it belongs to: a receive of an earlier
+      // exchange that is woken late must not reset a newer request's state. A receive that returns a
+      // reply has consumed the reply of whatever exchange is current, so it finishes that one.
+      let finishes = match *state_guard {
+        ReqState::ExpectingReply { exchange, .. } => received_msg_result.is_ok() || exchange == my_exchange,
+        _ => false,
+      };
+      if finishes {
         let finished = received_msg_result.as_ref().map_or(true, |m| !m.is_more());
         if finished {
           *state_guard = ReqState::ReadyToSend;
@@ -363,7 +368,11 @@ impl ISocket for ReqSocket {
 
     {
       let mut state_guard = self.state.lock();
-      if matches!(*state_guard, ReqState::ExpectingReply { exchange, .. } if exchange == my_exchange) {
+      let finishes = match *state_guard {
+        ReqState::ExpectingReply { exchange, .. } => result.is_ok() || exchange == my_exchange,
+        _ => false,
+      };
+      if finishes {
         *state_guard = ReqState::ReadyToSend;
         self.reply_available_notifier.notify_waiters();
       }
